@@ -57,70 +57,100 @@ def c1_provenance(fb, rep):
     it = fb.find1('Search::iterativeDeepening')
     if rep.need(clause, it, 'Search::iterativeDeepening') is None:
         return
+    # roles: the root list = the local vector<MoveInfo>; the result variables = the Move locals that are returned
+    root_ids = {v['id'] for _, _, e in it.events() if e.get('k') == 'decl' for v in e.get('vars', []) if 'MoveInfo' in (v.get('t') or '') and 'vector' in (v.get('t') or '')}
+    if rep.need(clause, root_ids, 'the local root move list of iterativeDeepening') is None:
+        return
+
+    def is_root_elem(t):
+        return _is_root_elem(t, root_ids)
+    result_ids = {}
+    for b, i, e in it.events():
+        if e.get('k') == 'ret' and e.get('e') is not None:
+            for n in walk(e['e']):
+                if n.get('k') == 'var' and n.get('vk') == 'local' and 'Move' in (n.get('t') or ''):
+                    result_ids[n['id']] = n.get('n')
+    bool_params = {p_['id'] for p_ in it.d.get('params', []) if (p_.get('t') or '') == 'bool'}
     refs = {}     # local reference variables bound to rootMoves[..].move
     for b, i, e in it.events():
         if e.get('k') == 'decl':
             for v in e.get('vars', []):
-                if '&' in (v.get('t') or '') and v.get('init') is not None and _is_root_elem(v['init']):
+                if '&' in (v.get('t') or '') and v.get('init') is not None and is_root_elem(v['init']):
                     refs[v['id']] = v['n']
     defs = []
     for b, i, e in it.events():
         if e.get('k') == 'decl':
             for v in e.get('vars', []):
-                if v.get('n') in ('bestMove', 'bestExactMove') and v.get('init') is not None:
+                if v.get('id') in result_ids and v.get('init') is not None:
                     defs.append((v['n'], v['init'], e))
-        if e.get('k') == 'call' and cname(e).endswith('Move::operator=') and isinstance(e.get('recv'), dict) and e['recv'].get('n') in ('bestMove', 'bestExactMove'):
+        if e.get('k') == 'call' and cname(e).endswith('Move::operator=') and isinstance(e.get('recv'), dict) and e['recv'].get('id') in result_ids:
             defs.append((e['recv']['n'], (e.get('args') or [None])[0], e))
     rep.floor(clause, 'definitions of the returned move', len(defs), 5)
+    ordinal = {}
     for k, (name, src, e) in enumerate(defs):
         s0 = _strip(src)
         while isinstance(s0, dict) and s0.get('k') == 'ctor' and s0.get('copy') and s0.get('args'):
             s0 = _strip(s0['args'][0])
-        ok = _is_root_elem(s0) or (isinstance(s0, dict) and s0.get('k') == 'var' and (s0.get('id') in refs or s0.get('n') in ('bestMove', 'bestExactMove')))
-        rep.ob(clause, 'K15 provenance', 'iterativeDeepening: definition #%d of %s is an element of the root move list' % (k + 1, name), ok, R.site(it, e), show(src), it.sname)
-    # returns: bestMove / bestExactMove, or Move() under size <= 0
+        ok = is_root_elem(s0) or (isinstance(s0, dict) and s0.get('k') == 'var' and (s0.get('id') in refs or s0.get('id') in result_ids))
+        rep.ob(clause, 'K15 provenance', 'iterativeDeepening: definition #%d of a returned move variable is an element of the root move list' % (k + 1), ok, R.site(it, e), show(src), it.sname)
+    # returns: a result variable, or Move() under size <= 0
     for b, i, e in it.events():
         if e.get('k') != 'ret':
             continue
         r = _strip(e.get('e'))
         while isinstance(r, dict) and r.get('k') == 'ctor' and r.get('copy') and r.get('args'):
             r = _strip(r['args'][0])
-        names = {n.get('n') for n in walk(r) if n.get('k') == 'var'}
-        if names and names <= {'bestMove', 'bestExactMove', 'onlyExact'}:
-            rep.ob(clause, 'K15 provenance', 'iterativeDeepening returns bestMove / bestExactMove', True, R.site(it, e), show(r), it.sname)
+        ids = {n.get('id') for n in walk(r) if n.get('k') == 'var'}
+        if ids and ids <= (set(result_ids) | bool_params):
+            rep.ob(clause, 'K15 provenance', 'iterativeDeepening returns one of its move variables fed from the root list', True, R.site(it, e), show(r), it.sname)
         else:
-            g = G.guards_of(it, set(it.blocks), b)
-            ok = isinstance(r, dict) and r.get('k') == 'ctor' and not r.get('args') and any('size <= 0' in x.replace('scMovesIn.', '') and not x.startswith('!') for x in g)
-            rep.ob(clause, 'K15 provenance', 'iterativeDeepening returns the null move exactly when there is no move to search', ok, R.site(it, e), 'guards %s' % g, it.sname)
+            gt = G.guard_trees(it, set(it.blocks), b)
+            empty_guard = any(sd and isinstance(_strip(g_), dict) and _strip(g_).get('k') == 'bin' and _strip(g_).get('op') in ('<=', '==', '<') and
+                              any(n.get('k') == 'mem' and n.get('f', '').endswith('MoveList::size') for n in walk(_strip(g_).get('l'))) and
+                              (_strip(_strip(g_).get('r')) or {}).get('cv') in (0, 1) for g_, sd in gt)
+            ok = isinstance(r, dict) and r.get('k') == 'ctor' and not r.get('args') and empty_guard
+            rep.ob(clause, 'K15 provenance', 'iterativeDeepening returns the null move exactly when there is no move to search', ok, R.site(it, e), 'guards %s' % [show(g_) for g_, _ in gt], it.sname)
     gr = fb.find1('Search::getRootMoves')
     if rep.need(clause, gr, 'Search::getRootMoves'):
+        gp = gr.d.get('params', [])
+        if len(gp) < 2:
+            rep.broken(clause, 'getRootMoves: unexpected parameter list')
+            return
+        in_id, out_id = gp[0]['id'], gp[1]['id']
         pushes = [(b, i, e) for b, i, e in gr.events() if e.get('k') == 'call' and cname(e).split('::')[-1] in ('push_back', 'emplace_back') and
-                  isinstance(e.get('recv'), dict) and e['recv'].get('n') == 'rootMovesOut']
+                  isinstance(e.get('recv'), dict) and e['recv'].get('id') == out_id]
         rep.floor(clause, 'output sites of getRootMoves', len(pushes), 1)
         # local copy of the input list
-        copy_ok = any(e.get('k') == 'decl' and any(v.get('n') == 'rootMoves' and any(n.get('k') == 'var' and n.get('n') == 'rootMovesIn' for n in walk(v.get('init'))) for v in e.get('vars', []))
-                      for _, _, e in gr.events())
+        copy_ids = {v['id'] for _, _, e in gr.events() if e.get('k') == 'decl' for v in e.get('vars', [])
+                    if 'MoveList' in (v.get('t') or '') and any(n.get('k') == 'var' and n.get('id') == in_id for n in walk(v.get('init') or {}))}
+        copy_ok = bool(copy_ids)
         elem_defs = {}
         for b, i, e in gr.events():
             if e.get('k') == 'decl':
                 for v in e.get('vars', []):
-                    if v.get('init') is not None and any((n.get('k') == 'call' and cname(n).endswith('MoveList::operator[]') and isinstance(n.get('recv'), dict) and n['recv'].get('n') == 'rootMoves')
+                    if v.get('init') is not None and any((n.get('k') == 'call' and cname(n).endswith('MoveList::operator[]') and isinstance(n.get('recv'), dict) and n['recv'].get('id') in copy_ids)
                                                          for n in walk(v['init'])):
                         elem_defs[v['id']] = v['n']
         for b, i, e in pushes:
             srcs = [n for a in e.get('args', []) for n in walk(a) if n.get('k') == 'var' and 'Move' in (n.get('t') or '')]
             ok = copy_ok and bool(srcs) and all(n.get('id') in elem_defs for n in srcs)
             rep.ob(clause, 'K15 provenance', 'getRootMoves outputs only elements of the (filtered) input list', ok, R.site(gr, e), '', gr.sname)
-            # at least one included: includedMoves[...] = true dominates the copy loop
-            sets = [(b2, i2) for b2, i2, e2 in gr.events() if e2.get('k') in ('asg', 'call') and 'includedMoves' in show(e2.get('l') if e2.get('k') == 'asg' else e2.get('recv')) and
-                    ((e2.get('k') == 'asg' and (e2.get('r') or {}).get('cv') == 1) or (e2.get('k') == 'call' and cname(e2).endswith('operator=') and ((e2.get('args') or [{}])[0]).get('cv') == 1))]
+            # at least one included: an inclusion flag is set unconditionally before the copy loop
+            flag_ids = {v['id'] for _, _, e2 in gr.events() if e2.get('k') == 'decl' for v in e2.get('vars', []) if 'vector<bool>' in (v.get('t') or '') or 'bool' in (v.get('t') or '') and '[' in (v.get('t') or '')}
+
+            def sets_flag(e2):
+                tgt = e2.get('l') if e2.get('k') == 'asg' else e2.get('recv')
+                if not any(n.get('k') == 'var' and n.get('id') in flag_ids for n in walk(tgt or {})):
+                    return False
+                return (e2.get('k') == 'asg' and (e2.get('r') or {}).get('cv') == 1) or (e2.get('k') == 'call' and cname(e2).endswith('operator=') and ((e2.get('args') or [{}])[0]).get('cv') == 1)
+            sets = [(b2, i2) for b2, i2, e2 in gr.events() if e2.get('k') in ('asg', 'call') and sets_flag(e2)]
             uncond = [p for p in sets if not G.guards_of(gr, set(gr.blocks), p[0])]
             rep.ob(clause, 'K2 must-precede', 'getRootMoves always includes at least one move (unconditional inclusion precedes the copy loop)',
                    bool(uncond) and any(gr.pos_dominates(p, (b, i)) for p in uncond), R.site(gr, e), '', gr.sname)
         # the filter can only shrink to moves that were in the list
         for b, i, e in gr.events():
             if e.get('k') == 'call' and cname(e) == 'MoveList::filter':
-                rep.ob(clause, 'K15 provenance', 'getRootMoves restricts (never extends) the root list', isinstance(e.get('recv'), dict) and e['recv'].get('n') == 'rootMoves', R.site(gr, e), '', gr.sname)
+                rep.ob(clause, 'K15 provenance', 'getRootMoves restricts (never extends) the root list', isinstance(e.get('recv'), dict) and e['recv'].get('id') in copy_ids, R.site(gr, e), '', gr.sname)
     mf = fb.find1('MoveList::filter')
     if rep.need(clause, mf, 'MoveList::filter'):
         # writes only copy elements of the list itself forward
@@ -131,11 +161,12 @@ def c1_provenance(fb, rep):
         rep.ob(clause, 'K15 provenance', 'MoveList::filter only compacts the list (elements are copied from the list itself)', ok, mf.where, '', mf.sname)
 
 
-def _is_root_elem(t):
+def _is_root_elem(t, root_ids=None):
     t = _strip(t)
     if isinstance(t, dict) and t.get('k') == 'mem' and t.get('f', '').endswith('MoveInfo::move'):
         b = _strip(t.get('b'))
-        return isinstance(b, dict) and b.get('k') == 'call' and cname(b).endswith('::operator[]') and isinstance(b.get('recv'), dict) and b['recv'].get('n') == 'rootMoves'
+        return isinstance(b, dict) and b.get('k') == 'call' and cname(b).endswith('::operator[]') and isinstance(b.get('recv'), dict) and \
+            (b['recv'].get('id') in root_ids if root_ids is not None else 'MoveInfo' in (b['recv'].get('t') or ''))
     return False
 
 
@@ -147,13 +178,24 @@ def c2_rootlist(fb, rep):
     if rep.need(clause, st, 'EngineControl::startThread') is None:
         return
     hand = R.is_named_call('EngineMainThread::startSearch')
-    gen = lambda e: e is not None and e.get('k') == 'call' and cname(e) == 'MoveGen::pseudoLegalMoves' and 'moves' in show((e.get('args') or [{}, {}])[1])
-    fil = lambda e: e is not None and e.get('k') == 'call' and cname(e) == 'MoveGen::removeIllegal' and 'moves' in show((e.get('args') or [{}, {}])[1])
+
+    def list_var(t):
+        """the variable (shared pointer / object) a MoveList argument is taken from"""
+        for n in walk(t or {}):
+            if n.get('k') == 'var' and 'id' in n and 'MoveList' in (n.get('t') or '') + (n.get('rc') or ''):
+                return n['id']
+        return None
+    gens = [e for _, _, e in st.events() if e.get('k') == 'call' and cname(e) == 'MoveGen::pseudoLegalMoves' and len(e.get('args', [])) >= 2]
+    lid = list_var(gens[0]['args'][1]) if gens else None
+    if rep.need(clause, lid, 'the move list startThread generates') is None:
+        return
+    gen = lambda e: e is not None and e.get('k') == 'call' and cname(e) == 'MoveGen::pseudoLegalMoves' and len(e.get('args', [])) >= 2 and list_var(e['args'][1]) == lid
+    fil = lambda e: e is not None and e.get('k') == 'call' and cname(e) == 'MoveGen::removeIllegal' and len(e.get('args', [])) >= 2 and list_var(e['args'][1]) == lid
     R.must_pass_between(rep, st, clause, 'startThread: the root list is generated before it is handed to the search', None, hand, gen)
     R.must_pass_between(rep, st, clause, 'startThread: illegal moves are removed before the list is handed to the search', None, hand, fil)
     for b, i, e in st.find_events(fil):
         R.must_pass_between(rep, st, clause, 'startThread: generation precedes the legality filter', None, lambda x, _e=e: x is _e, gen)
-    fl = [(b, i, e) for b, i, e in st.events() if e.get('k') == 'call' and cname(e) == 'MoveList::filter']
+    fl = [(b, i, e) for b, i, e in st.events() if e.get('k') == 'call' and cname(e) == 'MoveList::filter' and list_var(e.get('recv')) == lid]
     rep.floor(clause, 'searchmoves filter in startThread', len(fl), 1)
     for b, i, e in fl:
         g = G.guards_of(st, set(st.blocks), b)
@@ -164,7 +206,7 @@ def c2_rootlist(fb, rep):
     # the list object handed over is the one that was built
     for b, i, e in st.find_events(hand):
         a = e.get('args', [])
-        ok = len(a) > 3 and show(_strip(a[3])) == 'moves'
+        ok = any(list_var(x) == lid for x in a)
         rep.ob(clause, 'K15 provenance', 'startThread hands over the list it built', ok, R.site(st, e), '', st.sname)
     ss = fb.find1('EngineControl::startSearch')
     if rep.need(clause, ss, 'EngineControl::startSearch'):
@@ -203,9 +245,14 @@ def c3_hashmove(fb, rep):
         for b2, i2, e2 in f.events():
             if e2.get('k') == 'decl':
                 for v in e2.get('vars', []):
-                    if (v.get('ct') or v.get('t')) in ('bool', 'const bool') and isinstance(v.get('init'), dict) and 'cv' in v['init'] and \
-                            v['n'] in ('hashMoveSelected', 'contains', 'valid', 'found', 'legal'):
-                        flag_ids.add(v['id'])
+                    if (v.get('ct') or v.get('t')) in ('bool', 'const bool') and isinstance(v.get('init'), dict) and 'cv' in v['init']:
+                        # a validation flag: somewhere it is set to a constant under a test that mentions the tracked move
+                        for b3, i3, e3 in f.events():
+                            if e3.get('k') == 'asg' and isinstance(e3.get('l'), dict) and e3['l'].get('id') == v['id'] and isinstance(e3.get('r'), dict) and 'cv' in e3['r']:
+                                doms_ = f.dominators().get(b3, set())
+                                if any(n.get('k') == 'var' and n.get('id') == vid for d_ in doms_ if d_ != b3 and len(f.blocks[d_]['succ']) == 2
+                                       for n in walk((f.blocks[d_].get('term') or {}).get('cond') or {})):
+                                    flag_ids.add(v['id'])
         flag_ids = sorted(flag_ids)
         viol = []
         uses = []
@@ -318,7 +365,10 @@ def c5_pv_splice(fb, rep):
     f = fb.find1('TBProbe::extendPV')
     if rep.need(clause, f, 'TBProbe::extendPV') is None:
         return
-    erases = [(b, i, e) for b, i, e in f.events() if e.get('k') == 'call' and cname(e).split('::')[-1] == 'erase' and isinstance(e.get('recv'), dict) and e['recv'].get('n') == 'pv']
+    pv_ids = {p_['id'] for p_ in f.d.get('params', []) if 'vector' in (p_.get('t') or '') and 'Move' in (p_.get('t') or '')}
+    if rep.need(clause, pv_ids, 'the PV parameter of extendPV') is None:
+        return
+    erases = [(b, i, e) for b, i, e in f.events() if e.get('k') == 'call' and cname(e).split('::')[-1] == 'erase' and isinstance(e.get('recv'), dict) and e['recv'].get('id') in pv_ids]
     rep.floor(clause, 'PV truncation sites in extendPV', len(erases), 1)
     for b, i, e in erases:
         h = G.enclosing_loop_stmt(f, b)
@@ -326,24 +376,27 @@ def c5_pv_splice(fb, rep):
         lv = None
         if isinstance(cond, dict) and cond.get('k') == 'bin':
             l = _strip(cond.get('l'))
-            lv = l.get('n') if isinstance(l, dict) else None
+            lv = l.get('id') if isinstance(l, dict) else None
         # the loop replays pv[lv]
         body = {x for x in f.blocks if h is not None and h in f.dominators().get(x, set()) and x != f.blocks[h]['succ'][-1] and
                 f.blocks[h]['succ'][-1] not in f.dominators().get(x, set())}
         replay = any(ev.get('k') == 'call' and cname(ev) == 'Position::makeMove' for b2 in body for ev in f.blocks[b2]['ev'])
-        idx_ok = any(n.get('k') == 'call' and cname(n).endswith('::operator[]') and isinstance(n.get('recv'), dict) and n['recv'].get('n') == 'pv' and
-                     (_strip((n.get('args') or [{}])[0]) or {}).get('n') == lv for b2 in body for ev in f.blocks[b2]['ev'] for n in walk(ev))
+        idx_ok = any(n.get('k') == 'call' and cname(n).endswith('::operator[]') and isinstance(n.get('recv'), dict) and n['recv'].get('id') in pv_ids and
+                     (_strip((n.get('args') or [{}])[0]) or {}).get('id') == lv for b2 in body for ev in f.blocks[b2]['ev'] for n in walk(ev))
         start = show((e.get('args') or [{}])[0], 200)
-        vars_in = {n.get('n') for n in walk((e.get('args') or [{}])[0]) if n.get('k') == 'var'}
+        vars_in = {n.get('id') for n in walk((e.get('args') or [{}])[0]) if n.get('k') == 'var'}
         plus1 = any(n.get('k') == 'int' and n.get('cv') == 1 for n in walk((e.get('args') or [{}])[0]))
-        ok = lv is not None and replay and idx_ok and (vars_in - {'pv'}) == {lv} and plus1
+        ok = lv is not None and replay and idx_ok and (vars_in - pv_ids) == {lv} and plus1
         rep.ob(clause, 'K10 agreement', 'extendPV truncates the PV after exactly the moves it has replayed (begin + loop index + 1)', ok, R.site(f, e),
                'truncation start %s, replay loop index %s' % (start, lv), f.sname)
     # appended moves come from the legal list of the replayed position
-    pushes = [(b, i, e) for b, i, e in f.events() if e.get('k') == 'call' and cname(e).split('::')[-1] == 'push_back' and isinstance(e.get('recv'), dict) and e['recv'].get('n') == 'pv']
+    pushes = [(b, i, e) for b, i, e in f.events() if e.get('k') == 'call' and cname(e).split('::')[-1] == 'push_back' and isinstance(e.get('recv'), dict) and e['recv'].get('id') in pv_ids]
+    # moves taken from a generated list: locals (or references) initialised from an element of a MoveList
+    list_elems = {v['id'] for _, _, ev in f.events() if ev.get('k') == 'decl' for v in ev.get('vars', [])
+                  if v.get('init') is not None and any(n.get('k') == 'call' and cname(n).endswith('MoveList::operator[]') for n in walk(v['init']))}
     for b, i, e in pushes:
         src = _strip((e.get('args') or [{}])[0])
-        ok = isinstance(src, dict) and src.get('k') == 'var' and src.get('n') == 'm'
+        ok = isinstance(src, dict) and src.get('k') == 'var' and src.get('id') in list_elems
         gen = f.path_avoiding((f.entry, -1), lambda x, _e=e: x is _e, R.is_named_call('MoveGen::removeIllegal'))
         rep.ob(clause, 'K15 provenance', 'extendPV appends only moves taken from a legality-filtered list of the current position', ok and gen is None, R.site(f, e), '', f.sname)
         # the appended move stays made (the position advances with the PV)
